@@ -93,7 +93,29 @@ def enc_input(v):
     return enc_table(v) if isinstance(v, list) else cell(v)
 
 
+def gen_inner_two_keys(rng):
+    """pure inner join of 2-3 tables on two key columns, key columns laid out in a different order than `on` in some table:
+    the final sort by `on` is the only thing that orders the result"""
+    on = ['k', 'j']
+    params = ['a', 'b', 'c'][:rng.choice([2, 2, 3])]
+    base = uniq([tuple(rng.choice(KUNIV if c == 'k' else JUNIV) for c in on) for _ in range(rng.choice([3, 4, 6]))])
+    inputs = []
+    for i, p in enumerate(params):
+        keys = list(base) if rng.random() < 0.6 else [k for k in base if rng.random() < 0.8]
+        rng.shuffle(keys)
+        t = make_table(rng, on, keys, p, VALS)
+        if i == 0 or rng.random() < 0.5:
+            t = sorted(t, key=lambda c: {'j': 0, 'k': 1}.get(c[0], 2))      # j before k
+        inputs.append((p, t))
+    line = '(pd call (L%s) (L%s) (D) (D%s) N T:%d)' % (
+        ''.join(' S:' + hexs(p) for p in params), ''.join(' S:' + hexs(c) for c in on),
+        ''.join(' (%s %s)' % (hexs(k), enc_input(v)) for k, v in inputs), proto.dt2us(TODAY))
+    return 'tables%d+two-keys-inner' % len(params), line
+
+
 def gen_case(rng, full=False):
+    if rng.random() < 0.08:
+        return gen_inner_two_keys(rng)
     on = ['k'] if rng.random() < 0.6 else ['k', 'j']
     params = ['a', 'b', 'c', 'd'][:rng.choice([1, 2, 2, 3, 4])]
     base = rand_keys(rng, on, None)
